@@ -579,14 +579,79 @@ fn cli_block(ctx: &Ctx) {
         let (keymode, op, bytes, ai) = &cases[i];
         let inp = wdp.write(&format!("in{}.ktl", i), bytes);
         let outp = wdp.file(&format!("out{}.bin", i));
-        let o = if *keymode {
-            Cmd::new(&wdp.path, &["decrypt", inp.to_str().unwrap(), "-t", "bob", "-o", outp.to_str().unwrap(), "-k", "kr.txt", "--env-pass"]).pass("bpw").run()
-        } else {
-            Cmd::new(&wdp.path, &["password", "decrypt", inp.to_str().unwrap(), "-o", outp.to_str().unwrap(), "--env-pass"]).pass(&pw).run()
+        // how the presented bytes reach the tool: as a regular file, or - for the edits that ADD bytes after an
+        // authentic prefix - also as a stream in which the authentic part arrives first and the rest only after a
+        // pause (through bare stdin, through the path /dev/stdin, and through a named pipe given as FILE)
+        let a = &auths[*ai];
+        let late_part = (op == "extend" || op == "duplicate-chunk") && bytes.len() > a.bytes.len() && bytes[..a.bytes.len()] == a.bytes[..];
+        let wirings: &[&str] = if late_part { &["regular file", "stdin, late tail", "/dev/stdin as FILE, late tail", "named pipe as FILE, late tail"] } else { &["regular file"] };
+        for wiring in wirings {
+        let _ = std::fs::remove_file(&outp);
+        let dribble = || crate::cli::Stdin::Dribble(bytes.clone(), vec![a.bytes.len(), 0, 0, bytes.len() - a.bytes.len()]);
+        let fifo = wdp.file(&format!("in{}.fifo", i));
+        let file_arg: Option<String> = match *wiring {
+            "regular file" => Some(inp.to_str().unwrap().to_string()),
+            "stdin, late tail" => None,
+            "/dev/stdin as FILE, late tail" => Some("/dev/stdin".into()),
+            _ => Some(fifo.to_str().unwrap().to_string()),
         };
+        let mut args: Vec<String> = if *keymode { vec!["decrypt".into()] } else { vec!["password".into(), "decrypt".into()] };
+        if let Some(f) = &file_arg {
+            args.push(f.clone());
+        }
+        if *keymode {
+            args.extend(["-t", "bob", "-k", "kr.txt"].iter().map(|x| x.to_string()));
+        }
+        args.extend(["-o".to_string(), outp.to_str().unwrap().to_string(), "--env-pass".to_string()]);
+        let argrefs: Vec<&str> = args.iter().map(|x| x.as_str()).collect();
+        let mut cmd = Cmd::new(&wdp.path, &argrefs).pass(if *keymode { "bpw" } else { &pw });
+        let mut feeder: Option<std::thread::JoinHandle<()>> = None;
+        match *wiring {
+            "regular file" => {}
+            "named pipe as FILE, late tail" => {
+                let c = std::ffi::CString::new(fifo.to_string_lossy().as_bytes()).unwrap();
+                if unsafe { libc::mkfifo(c.as_ptr(), 0o600) } != 0 {
+                    continue;
+                }
+                let (head, tail, fp) = (a.bytes.clone(), bytes[a.bytes.len()..].to_vec(), fifo.clone());
+                feeder = Some(std::thread::spawn(move || {
+                    use std::io::Write;
+                    use std::os::unix::fs::OpenOptionsExt;
+                    // wait (bounded) for the tool to open the pipe for reading, then head, pause, tail
+                    let mut f = None;
+                    for _ in 0..400 {
+                        match std::fs::OpenOptions::new().write(true).custom_flags(libc::O_NONBLOCK).open(&fp) {
+                            Ok(h) => {
+                                f = Some(h);
+                                break;
+                            }
+                            Err(_) => std::thread::sleep(std::time::Duration::from_millis(10)),
+                        }
+                    }
+                    if let Some(mut h) = f {
+                        // back to blocking writes
+                        unsafe {
+                            use std::os::unix::io::AsRawFd;
+                            let fl = libc::fcntl(h.as_raw_fd(), libc::F_GETFL);
+                            libc::fcntl(h.as_raw_fd(), libc::F_SETFL, fl & !libc::O_NONBLOCK);
+                        }
+                        let _ = h.write_all(&head);
+                        let _ = h.flush();
+                        std::thread::sleep(std::time::Duration::from_millis(900));
+                        let _ = h.write_all(&tail);
+                    }
+                }));
+            }
+            _ => cmd = cmd.stdin(dribble()),
+        }
+        let o = cmd.run();
+        if let Some(h) = feeder {
+            let _ = h.join();
+        }
+        let _ = std::fs::remove_file(&fifo);
         ctx.eval();
         let out = std::fs::read(&outp).ok();
-        let a = &auths[*ai];
+        let op = &if *wiring == "regular file" { op.clone() } else { format!("{} ({})", op, wiring) };
         let case = || json!({"mode": if *keymode { "key" } else { "password" }, "operator": op, "presented": hex_short(bytes, 300), "presented_len": bytes.len(), "authentic_len": a.bytes.len(), "exit": o.exit.describe(), "stderr": o.stderr_s(), "output_len": out.as_ref().map(|x| x.len())});
         let mode = if *keymode { "key" } else { "password" };
         match &o.exit {
@@ -609,6 +674,7 @@ fn cli_block(ctx: &Ctx) {
                 }
             }
             other => ctx.violation(&format!("C03:cli:{}:abnormal-termination:{}", mode, other.describe()), case()),
+        }
         }
         let _ = std::fs::remove_file(&inp);
         let _ = std::fs::remove_file(&outp);
@@ -634,6 +700,9 @@ pub fn run(ctx: &Ctx) {
     }
     ctx.require("cli: authentic file with special plaintext content", 30);
     ctx.require("cli key extend: rejected", 3);
+    ctx.require("cli key extend (named pipe as FILE, late tail): rejected", 2);
+    ctx.require("cli password extend (/dev/stdin as FILE, late tail): rejected", 4);
+    ctx.require("cli password extend (stdin, late tail): rejected", 4);
     ctx.require("cli password after an interrupted earlier run", 1);
     ctx.require("cli key after an interrupted earlier run", 1);
     ctx.require("cli password extend: rejected", 6);
